@@ -910,7 +910,12 @@ pub fn run_c12(args: &Args, seed: u64, tier: &str, report: &Report) -> String {
                     }
                 }
             }
-            let k = 1 + rng.below(300);
+            // (exact multiples of 256 searches too: the table's 8-bit search counter is back at 0 then)
+            let k = match shard % 8 {
+                0 => 256,
+                1 => 512,
+                _ => 1 + rng.below(300),
+            };
             let enc = format!("{k}#{}", pool.iter().map(|(f, m)| format!("{f}|{}", m.join(" "))).collect::<Vec<_>>().join("#"));
             l.distinct.insert(hash_str(&enc));
             if let Some((sig, what)) = lockstep(k, &pool, &mut l) {
